@@ -328,4 +328,198 @@ theorem rpLookup_rpList (wt : WText W) (r : HandRange W) (rp : RankPair) (w : W)
     rpLookup (rpList wt r) rp = some w ↔ RankPair.canonical rp ∧ entryW wt r rp = some w := by
   rw [rpLookup_eq_some_iff (rpList_functional wt r), mem_rpList]
 
+/-- all canonical rank pairs, in the order `rank_pairs` visits them -/
+def allRankPairs : List RankPair :=
+  (List.range 13).map .pocket
+    ++ (List.range 12).flatMap fun h => (List.range' (h + 1) (12 - h)).flatMap fun k => [.suited h k, .ofsuit h k]
+
+theorem flatMap_congr_mem {α β : Type} {l : List α} {f g : α → List β} (h : ∀ a ∈ l, f a = g a) :
+    l.flatMap f = l.flatMap g := by
+  induction l with
+  | nil => rfl
+  | cons a rest ih =>
+    rw [List.flatMap_cons, List.flatMap_cons, h a List.mem_cons_self,
+      ih fun x hx => h x (List.mem_cons_of_mem _ hx)]
+
+/-- second closed form: one optional entry per canonical rank pair -/
+theorem rpList_eq_filterMap (wt : WText W) (r : HandRange W) :
+    rpList wt r = allRankPairs.filterMap (entryOf wt r) := by
+  unfold rpList allRankPairs
+  rw [List.filterMap_append, List.filterMap_map, List.filterMap_flatMap]
+  congr 1
+  apply flatMap_congr_mem
+  intro h _
+  unfold rowEntries
+  rw [List.filterMap_flatMap]
+  apply flatMap_congr_mem
+  intro k _
+  unfold cellEntries
+  cases h1 : entryOf wt r (.suited h k) <;> cases h2 : entryOf wt r (.ofsuit h k) <;> simp [h1, h2]
+
+theorem mem_allRankPairs (rp : RankPair) : rp ∈ allRankPairs ↔ RankPair.canonical rp := by
+  unfold allRankPairs
+  simp only [List.mem_append, List.mem_map, List.mem_flatMap, List.mem_range, List.mem_range'_1,
+    List.mem_cons, List.not_mem_nil, or_false]
+  constructor
+  · rintro (⟨a, ha, rfl⟩ | ⟨h, hh, k, hk, (rfl | rfl)⟩)
+    · exact ha
+    · exact ⟨by omega, by omega⟩
+    · exact ⟨by omega, by omega⟩
+  · intro hc
+    cases rp with
+    | pocket a => exact Or.inl ⟨a, hc, rfl⟩
+    | suited h k => exact Or.inr ⟨h, by have := hc.1; have := hc.2; omega, k, by have := hc.1; have := hc.2; omega, Or.inl rfl⟩
+    | ofsuit h k => exact Or.inr ⟨h, by have := hc.1; have := hc.2; omega, k, by have := hc.1; have := hc.2; omega, Or.inr rfl⟩
+
+theorem allRankPairs_nodup : allRankPairs.Nodup := by decide +kernel
+
+theorem filterMap_const_eq_filter {α β : Type} (g : α → Option β) (l : List α) :
+    l.filterMap (fun a => (g a).map fun _ => a) = l.filter (fun a => (g a).isSome) := by
+  induction l with
+  | nil => rfl
+  | cons a rest ih => cases h : g a <;> simp [h, ih]
+
+/-- the keys of the result, in order: the canonical rank pairs that pass the probe test -/
+theorem rpList_keys (wt : WText W) (r : HandRange W) :
+    (rpList wt r).map Prod.fst = allRankPairs.filter (fun rp => (entryW wt r rp).isSome) := by
+  rw [rpList_eq_filterMap, List.map_filterMap, ← filterMap_const_eq_filter]
+  congr 1
+  funext rp
+  simp [entryOf, Option.map_map, Function.comp_def]
+
+/-- each rank pair is reported at most once -/
+theorem rpList_keys_nodup (wt : WText W) (r : HandRange W) : ((rpList wt r).map Prod.fst).Nodup := by
+  rw [rpList_keys]
+  exact List.Nodup.sublist List.filter_sublist allRankPairs_nodup
+
+/-- `orphans`: the range minus the combos of the reported rank pairs -/
+theorem orphans_lookup (wt : WText W) (r : HandRange W) :
+    ∃ o, orphans wt r = .ok o ∧ ∀ c, o.lookup c =
+      if c ∈ (rpList wt r).flatMap (fun e => e.1.combos) then none else r.lookup c :=
+  ⟨_, orphans_eq wt r, fun c => lookup_foldl_remove_combos _ r c⟩
+
+/-! ### the combos of a rank pair; `classify` -/
+
+theorem mkPair_of_lt {a b : Card} (h : Card.lt a b = true) : mkPair a b = ⟨a, b⟩ := by
+  rw [C14.mkPair_eq]
+  simp [Card.gt, C14.lt_asymm a b h]
+
+theorem mkPair_of_rank_lt {h k : Nat} (hk : h < k) (s t : Nat) : mkPair ⟨h, s⟩ ⟨k, t⟩ = ⟨⟨h, s⟩, ⟨k, t⟩⟩ :=
+  mkPair_of_lt (by simp [Card.lt, hk])
+
+theorem pocketSuits_lt : ∀ s ∈ Gen.pocketSuits, s.1 < s.2 := by decide
+theorem suitedSuits_eq : ∀ s ∈ Gen.suitedSuits, s.1 = s.2 := by decide
+theorem ofsuitSuits_ne : ∀ s ∈ Gen.ofsuitSuits, s.1 ≠ s.2 := by decide
+theorem mem_pocketSuits : ∀ s ∈ List.range 4, ∀ t ∈ List.range 4, s < t → (s, t) ∈ Gen.pocketSuits := by decide
+theorem mem_suitedSuits : ∀ s ∈ List.range 4, (s, s) ∈ Gen.suitedSuits := by decide
+theorem mem_ofsuitSuits : ∀ s ∈ List.range 4, ∀ t ∈ List.range 4, s ≠ t → (s, t) ∈ Gen.ofsuitSuits := by decide
+
+/-- closed forms of the combos (no `mkPair`) -/
+theorem combos_pocket (r : Nat) :
+    (RankPair.pocket r).combos = Gen.pocketSuits.map fun s => (⟨⟨r, s.1⟩, ⟨r, s.2⟩⟩ : Combo) := by
+  unfold RankPair.combos
+  apply List.map_congr_left
+  intro s hs
+  exact mkPair_of_lt (by simp [Card.lt, pocketSuits_lt s hs])
+
+theorem combos_suited {h k : Nat} (hk : h < k) :
+    (RankPair.suited h k).combos = Gen.suitedSuits.map fun s => (⟨⟨h, s.1⟩, ⟨k, s.2⟩⟩ : Combo) := by
+  unfold RankPair.combos
+  exact List.map_congr_left fun s _ => mkPair_of_rank_lt hk _ _
+
+theorem combos_ofsuit {h k : Nat} (hk : h < k) :
+    (RankPair.ofsuit h k).combos = Gen.ofsuitSuits.map fun s => (⟨⟨h, s.1⟩, ⟨k, s.2⟩⟩ : Combo) := by
+  unfold RankPair.combos
+  exact List.map_congr_left fun s _ => mkPair_of_rank_lt hk _ _
+
+theorem pocketSuits_valid : ∀ s ∈ Gen.pocketSuits, s.1 < 4 ∧ s.2 < 4 := by decide
+theorem suitedSuits_valid : ∀ s ∈ Gen.suitedSuits, s.1 < 4 ∧ s.2 < 4 := by decide
+theorem ofsuitSuits_valid : ∀ s ∈ Gen.ofsuitSuits, s.1 < 4 ∧ s.2 < 4 := by decide
+
+/-- the combos of a canonical rank pair are real combos in canonical form -/
+theorem combos_ok {rp : RankPair} (hc : RankPair.canonical rp) {c : Combo} (h : c ∈ rp.combos) : ComboOk c := by
+  cases rp with
+  | pocket r =>
+    rw [combos_pocket] at h
+    obtain ⟨s, hs, rfl⟩ := List.mem_map.mp h
+    have hr : r < 13 := hc
+    have := pocketSuits_valid s hs
+    have := pocketSuits_lt s hs
+    simp [ComboOk, Card.valid, Card.lt, *]
+  | suited hi k =>
+    obtain ⟨h1, h2⟩ := hc
+    rw [combos_suited h1] at h
+    obtain ⟨s, hs, rfl⟩ := List.mem_map.mp h
+    have := suitedSuits_valid s hs
+    have : hi < 13 := by omega
+    simp [ComboOk, Card.valid, Card.lt, *]
+  | ofsuit hi k =>
+    obtain ⟨h1, h2⟩ := hc
+    rw [combos_ofsuit h1] at h
+    obtain ⟨s, hs, rfl⟩ := List.mem_map.mp h
+    have := ofsuitSuits_valid s hs
+    have : hi < 13 := by omega
+    simp [ComboOk, Card.valid, Card.lt, *]
+
+/-- the rank pair a combo belongs to: same rank → pocket; else same suit → suited, else offsuit, with the
+smaller rank index (the higher card) first -/
+def classify (c : Combo) : RankPair :=
+  if c.fst.rank = c.snd.rank then .pocket c.fst.rank
+  else if c.fst.suit = c.snd.suit then .suited (min c.fst.rank c.snd.rank) (max c.fst.rank c.snd.rank)
+  else .ofsuit (min c.fst.rank c.snd.rank) (max c.fst.rank c.snd.rank)
+
+/-- a combo of a canonical rank pair classifies as that rank pair -/
+theorem classify_of_mem {rp : RankPair} (hc : RankPair.canonical rp) {c : Combo} (h : c ∈ rp.combos) :
+    classify c = rp := by
+  cases rp with
+  | pocket r =>
+    rw [combos_pocket] at h
+    obtain ⟨s, _, rfl⟩ := List.mem_map.mp h
+    simp [classify]
+  | suited hi k =>
+    obtain ⟨h1, _⟩ := hc
+    rw [combos_suited h1] at h
+    obtain ⟨s, hs, rfl⟩ := List.mem_map.mp h
+    have := suitedSuits_eq s hs
+    have hne : hi ≠ k := by omega
+    simp [classify, hne, this, Nat.min_eq_left (Nat.le_of_lt h1), Nat.max_eq_right (Nat.le_of_lt h1)]
+  | ofsuit hi k =>
+    obtain ⟨h1, _⟩ := hc
+    rw [combos_ofsuit h1] at h
+    obtain ⟨s, hs, rfl⟩ := List.mem_map.mp h
+    have := ofsuitSuits_ne s hs
+    have hne : hi ≠ k := by omega
+    simp [classify, hne, this, Nat.min_eq_left (Nat.le_of_lt h1), Nat.max_eq_right (Nat.le_of_lt h1)]
+
+/-- different canonical rank pairs have no combo in common -/
+theorem combos_disjoint {rp rp' : RankPair} (h : RankPair.canonical rp) (h' : RankPair.canonical rp')
+    {c : Combo} (hc : c ∈ rp.combos) (hc' : c ∈ rp'.combos) : rp = rp' := by
+  rw [← classify_of_mem h hc, ← classify_of_mem h' hc']
+
+/-- a real combo belongs to the (canonical) rank pair it classifies as -/
+theorem classify_spec {c : Combo} (hc : ComboOk c) : RankPair.canonical (classify c) ∧ c ∈ (classify c).combos := by
+  obtain ⟨⟨r1, s1⟩, ⟨r2, s2⟩⟩ := c
+  obtain ⟨v1, v2, hlt⟩ := hc
+  simp only [Card.valid, Bool.and_eq_true, decide_eq_true_eq] at v1 v2
+  simp only [Card.lt, Bool.or_eq_true, Bool.and_eq_true, decide_eq_true_eq, beq_iff_eq] at hlt
+  have m1 := List.mem_range.mpr v1.2
+  have m2 := List.mem_range.mpr v2.2
+  by_cases hr : r1 = r2
+  · subst hr
+    have hs : s1 < s2 := by omega
+    have e : classify ⟨⟨r1, s1⟩, ⟨r1, s2⟩⟩ = .pocket r1 := by simp [classify]
+    rw [e, combos_pocket]
+    exact ⟨v1.1, List.mem_map.mpr ⟨(s1, s2), mem_pocketSuits s1 m1 s2 m2 hs, rfl⟩⟩
+  · have hlt' : r1 < r2 := by omega
+    by_cases hs : s1 = s2
+    · subst hs
+      have e : classify ⟨⟨r1, s1⟩, ⟨r2, s1⟩⟩ = .suited r1 r2 := by
+        simp [classify, hr, Nat.min_eq_left (Nat.le_of_lt hlt'), Nat.max_eq_right (Nat.le_of_lt hlt')]
+      rw [e, combos_suited hlt']
+      exact ⟨⟨hlt', v2.1⟩, List.mem_map.mpr ⟨(s1, s1), mem_suitedSuits s1 m1, rfl⟩⟩
+    · have e : classify ⟨⟨r1, s1⟩, ⟨r2, s2⟩⟩ = .ofsuit r1 r2 := by
+        simp [classify, hr, hs, Nat.min_eq_left (Nat.le_of_lt hlt'), Nat.max_eq_right (Nat.le_of_lt hlt')]
+      rw [e, combos_ofsuit hlt']
+      exact ⟨⟨hlt', v2.1⟩, List.mem_map.mpr ⟨(s1, s2), mem_ofsuitSuits s1 m1 s2 m2 hs, rfl⟩⟩
+
 end EspadaVerif.RankPairFacts
